@@ -72,6 +72,9 @@ pub enum Backend {
     Memory,
     /// tier B: real file system (tmpfs scratch directory) and the real darklua binary
     RealFs,
+    /// tier B': real file system through the library (`Resources::from_file_system()` in
+    /// this process, with the scratch directory as working directory)
+    RealLib,
 }
 
 pub fn populate(fs: &SimFs, entries: &[FsEntry]) {
@@ -150,6 +153,8 @@ pub enum Op {
 pub enum Layer {
     L1,
     L2,
+    /// the real `darklua process --watch` binary on a real directory, real time
+    LW,
 }
 
 #[derive(Clone, Debug, PartialEq, Eq, Serialize, Deserialize)]
